@@ -33,7 +33,7 @@ PROPS = {
     "C12": dict(
         engines=["recover"], props_file="Props/C12.v", checkers=["Oracles/CoreC12.v"],
         checker_fns={"recover": "Oracles.CoreC12:c12_check_all"},
-        coq_scan=["Core/Recover.v", "Core/RecoverProofs.v", "Core/Obs.v", "Oracles/CoreC12.v", "Props/C12.v", "Base"],
+        coq_scan=["Core/Recover.v", "Core/RecoverProofs.v", "Core/Ledger.v", "Core/Obs.v", "Oracles/CoreC12.v", "Props/C12.v", "Base"],
         level="proof",
         assumptions=[
             "replayed items have distinct node ids, application ids and allocation keys; resources are strictly positive int64 maps (replay_wf) - checked per case (kind 1294)",
